@@ -53,6 +53,13 @@ func UnexpectedToken(m *ast.Meta, expects ...string) *ParseError {
 	}
 }
 
+func NestingTooDeep(m *ast.Meta) *ParseError {
+	return &ParseError{
+		Token:   m.Token,
+		Message: fmt.Sprintf("Expressions or blocks are nested more than %d levels deep", MaxNestingDepth),
+	}
+}
+
 func UndefinedPrefix(m *ast.Meta) *ParseError {
 	return &ParseError{
 		Token:   m.Token,
